@@ -40,8 +40,10 @@ def state_specs(tier):
         if chain != 'SHF:N,Sz':
             sp += [dict(chain=chain, bc='segment', L=3, k=0, form=None, src='finite')]
             sp += [dict(chain=chain, bc='segment', L=3, k=0, form=None, src='finite', env='applied')]
-    for chain in DN.IMPS:
+    for n, chain in enumerate(DN.IMPS):
         sp += [dict(chain=chain, bc='infinite'), dict(chain=chain, bc='segment', src='infinite')]
+        if not q or n == 3:
+            sp += [dict(chain=chain, bc='infinite', form='mixed' if n % 2 else 'A')]
     return sp
 
 
@@ -83,6 +85,8 @@ def context(spec_json, seed):
     chain, env = spec['chain'], c.env
     if spec.get('src') == 'infinite' or c.bc == 'infinite':
         ipsi = DN.infinite_state(chain, seed, NORM_KET)
+        if spec.get('form'):
+            ipsi.convert_form(forms_list(spec['form'], ipsi.L))
         if c.bc == 'infinite':
             c.psi, T = ipsi, DN.window_tensor(ipsi, c.lo, c.hi - c.lo)
         else:
@@ -719,7 +723,7 @@ def run_case(kind, spec, args, seed):
         f = args.get('f') or {'ev': 'expectation_value', 'nsite': 'expectation_value', 'multi': 'expectation_value_multi_sites',
                               'term': 'expectation_value_term', 'tsum': 'expectation_value_terms_sum', 'tlist': 'term_list_correlation_function_right',
                               'sample': 'sample_measurements'}.get(kind, kind)
-        return [('%s:%s:exception:%s' % (kind, f, type(e).__name__), '%s: %s\n%s' % (args, e, traceback.format_exc()[-1500:]))], 1
+        return [('unexpected-exception:%s:%s:%s' % (kind, f, type(e).__name__), '%s: %s\n%s' % (args, e, traceback.format_exc()[-1500:]))], 1
 
 
 def state_key(spec):
@@ -750,7 +754,7 @@ def run_unit(unit):
         traces += n
         outcomes.add('%s:%s:%s' % (kind, state_key(spec), 'ok' if not res else 'violation'))
         for key, what in res:
-            key = '%s [%s]' % (key, state_key(spec)) if key.startswith(kind + ':') else key  # (unexpected exceptions)
+            key = '%s [%s]' % (key, state_key(spec)) if key.startswith('unexpected-exception') else key
             per_key[key] = per_key.get(key, 0) + 1
             if per_key[key] <= 2 and len(viol) < 16:
                 viol.append(dict(key=key, what='state %s: %s' % (spec, what[:3000]), case=dict(kind=kind, spec=spec, args=args, seed=seed)))
